@@ -38,7 +38,7 @@ func vRunCase(c vCase) (out vOut) {
 	vRealtime = c.Realtime
 	vTier = c.Tier
 	vHeldRanks, vMainGoid, vNoBlockMsg, vSpawned = nil, vGoid(), "", nil
-	vGoLive, vPreemptBody, vPreemptIgnoreRank = false, nil, -1
+	vGoLive, vPreemptBody, vPreemptIgnoreRank, vSides = false, nil, -1, nil
 	vOtherMu.Lock()
 	vOtherRanks, vAsyncMsg = map[uint64]*[]int{}, ""
 	vOtherMu.Unlock()
